@@ -42,7 +42,14 @@ pub fn run(k: &str, c: &Value) -> Value {
                 };
                 let to3 = std::panic::catch_unwind(std::panic::AssertUnwindSafe(|| mesh.uv_to_3d(&uv0))).ok().flatten().map(|s| hp3(&s.point));
                 let from3 = mesh.uv_with_tol(&p3, 1e-3, std::f64::consts::FRAC_PI_2, None).map(|(uv, depth)| json!([hp2(&uv), hx(depth)]));
-                json!({"p3": hp3(&p3), "uv": hp2(&uv0), "tri": triv, "uv_back": back_uv, "to3": to3, "from3": from3})
+                // the same query given in another frame together with the transform that brings it into the mesh's frame
+                let from3_t = if c["frame"].is_null() { Value::Null } else {
+                    let f = &c["frame"];
+                    let t = engeom::Iso3::new(engeom::Vector3::new(fx(&f[0]), fx(&f[1]), fx(&f[2])), engeom::Vector3::new(fx(&f[3]), fx(&f[4]), fx(&f[5])));
+                    let other = t.inverse() * p3;
+                    json!({"back": hp3(&(t * other)), "r": mesh.uv_with_tol(&other, 1e-3, std::f64::consts::FRAC_PI_2, Some(&t)).map(|(uv, depth)| json!([hp2(&uv), hx(depth)]))})
+                };
+                json!({"p3": hp3(&p3), "uv": hp2(&uv0), "tri": triv, "uv_back": back_uv, "to3": to3, "from3": from3, "from3_t": from3_t})
             }).collect();
             json!({"out": out})
         }
